@@ -254,6 +254,33 @@ def planted_product(rng, dims, N, cplx):
     return basis.reshape((N,) + tuple(dims)), planted, vecs, float(np.linalg.cond(mix))
 
 
+def basis_with_coefficients(rng, planted, N, cplx, coeff):
+    """orthonormal basis B (N, *shape) of a random N-dimensional subspace containing `planted`, rotated such that
+    planted/|planted| = sum_i coeff[i] B[i] (coeff: unit vector). Used to hand over bases in which the planted element has a
+    prescribed (e.g. very small) component along one basis vector."""
+    planted = np.asarray(planted)
+    shape = planted.shape
+    D = planted.size
+    e = planted.reshape(D) / np.linalg.norm(planted)
+    Q = orthonormal_rows(np.concatenate([e[None], _randn(rng, cplx, N - 1, D)], axis=0))
+    Q[0] = e
+    coeff = np.asarray(coeff) / np.linalg.norm(coeff)
+    X = _randn(rng, cplx, N, N).astype(np.complex128 if cplx else np.float64)
+    X[:, 0] = coeff.conj()
+    R, _ = np.linalg.qr(X)
+    j = int(np.argmax(np.abs(coeff)))
+    R = R * (coeff.conj()[j] / R[j, 0])
+    B = R @ Q
+    return B.reshape((N,) + shape)
+
+
+def coefficient_profile(basis, element):
+    """|<B_i, element>| for the normalised element"""
+    v = np.asarray(basis).reshape(len(basis), -1)
+    e = np.asarray(element).reshape(-1)
+    return np.abs(v.conj() @ (e / np.linalg.norm(e)))
+
+
 def random_subspace(rng, shape, N, cplx):
     D = int(np.prod(shape))
     return orthonormal_rows(_randn(rng, cplx, N, D)).reshape((N,) + tuple(shape))
@@ -393,6 +420,14 @@ def _selfcheck():
     assert numerical_rank(planted)[0] == 2
     basis, planted, vecs, _ = planted_product(rng, (2, 2, 3), 3, False)
     assert orthonormality_defect(basis) < 1e-12 and membership_residual(basis, planted) < 1e-12
+    for cplx in (False, True):
+        pl = _randn(rng, cplx, 2, 3)
+        cf = _randn(rng, cplx, 4)
+        cf[-1] = 1e-5
+        cf /= np.linalg.norm(cf)
+        bb = basis_with_coefficients(rng, pl, 4, cplx, cf)
+        assert orthonormality_defect(bb) < 1e-12 and membership_residual(bb, pl) < 1e-12
+        assert np.abs(bb.reshape(4, -1).conj() @ (pl.reshape(-1) / np.linalg.norm(pl)) - cf).max() < 1e-12
     A = rand_square(rng, 4, 'normal')
     assert np.abs(A @ A.conj().T - A.conj().T @ A).max() < 1e-12
     # support function of a normal matrix is the support function of its eigenvalues
